@@ -33,6 +33,12 @@ const maxDataFrameSize = 1 << 14
 // closedStrmsCap is how many recently closed stream ids a connection keeps.
 const closedStrmsCap = 256
 
+// maxHeldHeaderFactor times MaxHeaderListSize is how many octets of a header
+// field that is not complete yet the server carries over to the next
+// CONTINUATION frame. They are HPACK wire octets; the longest Huffman code has
+// 30 bits, so n of them decode to at least n*8/30 octets, and 4 > 30/8.
+const maxHeldHeaderFactor = 4
+
 // writeDrainTimeout is how long teardown waits for queued frames, a GOAWAY in
 // particular, to reach a peer that may have stopped reading.
 const writeDrainTimeout = time.Second
@@ -1378,6 +1384,18 @@ func (sc *serverConn) handleHeaderFrame(strm *Stream, fr *FrameHeader) error {
 			// table size update and nothing is wrong.
 			if errors.Is(err, ErrUnexpectedSize) && (len(b) == 0 || !fr.Flags().Has(FlagEndHeaders)) {
 				err = nil
+
+				// The list size is counted per decoded field, so a field that
+				// never ends (a string whose length prefix announces megabytes)
+				// would be carried from frame to frame without limit. b is
+				// HPACK wire octets and the longest Huffman code has 30 bits:
+				// n wire octets decode to at least n*8/30 octets, so more than
+				// maxHeldHeaderFactor (4 > 30/8) times the limit of them can
+				// never become a field that fits. Refusing them is exact.
+				if sc.maxHeaderList > 0 && len(b) > maxHeldHeaderFactor*sc.maxHeaderList {
+					return NewGoAwayError(EnhanceYourCalm, "header field exceeds the maximum header list size")
+				}
+
 				strm.previousHeaderBytes = append(strm.previousHeaderBytes, b...)
 			} else {
 				err = NewGoAwayError(CompressionError, err.Error())
